@@ -50,6 +50,12 @@ type decideSpec struct {
 	binops map[string]string
 	// callee of a pure call inside an expression -> Lean function ("[from:]" is the slice expression x[lo:])
 	funcs map[string]string
+	// trace mode: the result is the list of declared effects in execution order. printed statement -> effect name
+	trace map[string]string
+	// printed `v, ok := <type assertion or lookup>` statement -> Lean Bool the second variable is bound to
+	okDefs map[string]string
+	// translate the body of the function's first `for` loop (one iteration) instead of the function body
+	loopBody bool
 }
 
 type decideTr struct {
@@ -317,7 +323,28 @@ func (t *decideTr) stmts(ss []ast.Stmt, fall string) (string, error) {
 			return t.stmts(rest, fall)
 		}
 	}
+	if name, ok := t.spec.trace[t.text(s)]; ok {
+		cont, err := t.stmts(rest, fall)
+		if err != nil {
+			return "", err
+		}
+		return "(" + leanStr(name) + " :: " + cont + ")", nil
+	}
+	if b, ok := t.spec.okDefs[t.text(s)]; ok {
+		as := s.(*ast.AssignStmt)
+		okv := as.Lhs[1].(*ast.Ident)
+		t.bound[okv.Name] = true
+		cont, err := t.stmts(rest, fall)
+		if err != nil {
+			return "", err
+		}
+		return fmt.Sprintf("(let %s := (%s)\n  %s)", leanIdent(okv.Name), b, cont), nil
+	}
 	switch x := s.(type) {
+	case *ast.BranchStmt:
+		if x.Tok == token.CONTINUE && x.Label == nil && t.spec.loopBody {
+			return fall, nil
+		}
 	case *ast.ExprStmt:
 		if t.isIgnoredRoot(x.X) {
 			return t.stmts(rest, fall)
@@ -563,7 +590,20 @@ func translateDecide(src string, spec *decideSpec) (string, error) {
 			continue
 		}
 		t := &decideTr{spec: spec, fset: fset, bound: map[string]bool{}, errFrom: map[string]string{}, strConst: map[string]string{}}
-		body, err := t.stmts(fd.Body.List, "")
+		list, fall := fd.Body.List, ""
+		if spec.loopBody {
+			list = nil
+			for _, st := range fd.Body.List {
+				if f, ok := st.(*ast.ForStmt); ok {
+					list, fall = f.Body.List, "[]"
+					break
+				}
+			}
+			if list == nil {
+				return "", fmt.Errorf("%s.%s: no for loop", spec.recv, spec.fn)
+			}
+		}
+		body, err := t.stmts(list, fall)
 		if err != nil {
 			return "", fmt.Errorf("%s.%s: %v", spec.recv, spec.fn, err)
 		}
